@@ -18,8 +18,8 @@ import (
 func init() {
 	core.Register(&core.Simple{
 		Id: "C12", Lvl: "exploration", Quick: 300, Thorough: 10000, PerBatch: 75, Width: 16, Timeout: 1500,
-		RuleText: "each case is a history of 25-50 steps over 2-9 clients with random read/send/open-chat/any-name privileges: connect+login (both login flows), invite-new, invite-to, join, leave, decline, set-subject, public and private send (plain and emote, messages 0..9000 arbitrary bytes), disconnect; a reference chat model computes per step the required deliveries (chat lines, subject changes, join and leave notices) and the permitted ones (invitation to the invitee, decline line to members); at hook-based quiescence every client's newly received chat transactions (types 106,113,117,118,119) must contain each required delivery exactly once and nothing that is not permitted for it. A race-build stress batch has all members of frozen chats send concurrently with unique message ids, and a churn batch lets members leave and re-join while others send, then checks that those who finally left are out of the audience. distinct = multiset of step kinds; non-trivial = history has a private send after a leave/decline/disconnect or a public send with mixed read privileges",
-		Case:  runCase,
+		RuleText: "each case is a history of 25-50 steps over 2-9 clients with random read/send/open-chat/any-name privileges: connect+login (both login flows), invite-new, invite-to, join, leave, leave by a non-member, decline, set-subject, public and private send (plain and emote, messages 0..9000 arbitrary bytes), disconnect; a reference chat model computes per step the required deliveries (chat lines, subject changes, join and leave notices) and the permitted ones (invitation to the invitee, decline line to members); at hook-based quiescence every client's newly received chat transactions (types 106,113,117,118,119) must contain each required delivery exactly once and nothing that is not permitted for it. A race-build stress batch has all members of frozen chats send concurrently with unique message ids, and a churn batch lets members leave and re-join while others send, then checks that those who finally left are out of the audience. distinct = multiset of step kinds; non-trivial = history has a private send after a leave/decline/disconnect or a public send with mixed read privileges",
+		Case:     runCase,
 		Extra: func(tier string, seed int64) []core.Batch {
 			n := 6
 			if tier == "thorough" {
@@ -57,15 +57,15 @@ type delivery struct {
 }
 
 type world struct {
-	c       *core.Case
-	srv     *fixture.Server
-	clients []*mclient
-	chats   []*mchat
-	log     []string
-	kinds   map[string]int
-	step    int
+	c                                 *core.Case
+	srv                               *fixture.Server
+	clients                           []*mclient
+	chats                             []*mchat
+	log                               []string
+	kinds                             map[string]int
+	step                              int
 	sawPrivAfterLeave, sawMixedPublic bool
-	lastLeaver map[string]map[int]bool // chat id -> clients that left/declined
+	lastLeaver                        map[string]map[int]bool // chat id -> clients that left/declined
 }
 
 func sigOf(t rc.Tran) string {
@@ -193,7 +193,7 @@ func (w *world) doStep() ([]delivery, bool) {
 	r := w.c.R
 	conn := w.connected()
 	var exp []delivery
-	kind := core.Pick(r, []string{"public", "public", "private", "private", "private", "invite-new", "invite-new", "invite-to", "join", "join", "leave", "decline", "subject", "disconnect", "connect"})
+	kind := core.Pick(r, []string{"public", "public", "private", "private", "private", "invite-new", "invite-new", "invite-to", "join", "join", "leave", "stray-leave", "decline", "subject", "disconnect", "connect"})
 	if len(conn) < 2 {
 		kind = "connect"
 	}
@@ -206,7 +206,7 @@ func (w *world) doStep() ([]delivery, bool) {
 			}
 		}
 	}
-	if len(live) == 0 && (kind == "private" || kind == "invite-to" || kind == "join" || kind == "leave" || kind == "decline" || kind == "subject") {
+	if len(live) == 0 && (kind == "private" || kind == "invite-to" || kind == "join" || kind == "leave" || kind == "stray-leave" || kind == "decline" || kind == "subject") {
 		kind = "invite-new"
 	}
 	w.kinds[kind]++
@@ -381,6 +381,28 @@ func (w *world) doStep() ([]delivery, bool) {
 		for i := range ch.members {
 			if w.clients[i].connected {
 				exp = append(exp, delivery{i, fmt.Sprintf("118 chat=%x user=%x", ch.id, rc.U16(int(m.id))), true})
+			}
+		}
+	case "stray-leave":
+		// a leave request from somebody who is not (or no longer) a member: a duplicate leave, or an invitee who never
+		// joined. It must not change the chat's audience; a leave notice to the members is tolerated, not demanded.
+		ch := core.Pick(r, live)
+		var non []*mclient
+		for _, o := range conn {
+			if !ch.members[o.idx] {
+				non = append(non, o)
+			}
+		}
+		if len(non) == 0 {
+			return nil, true
+		}
+		m := core.Pick(r, non)
+		m.cl.Send(116, rc.F(114, ch.id))
+		w.note(ch, m.idx)
+		w.log = append(w.log, fmt.Sprintf("client %d (not a member) sends a leave for chat %x", m.idx, ch.id))
+		for i := range ch.members {
+			if w.clients[i].connected {
+				exp = append(exp, delivery{i, fmt.Sprintf("118 chat=%x user=%x", ch.id, rc.U16(int(m.id))), false})
 			}
 		}
 	case "decline":
